@@ -115,7 +115,8 @@ func c13gen(r *rand.Rand, depth int, st *[2]int) *c13node {
 	if depth < 4 && !*noInc && r.Intn(9) == 0 {
 		// an included file with blocks of its own (ending active or inactive); what follows the $include
 		// in the including file must be governed by the including file's blocks alone
-		n := &c13node{kind: "include", file: fmt.Sprintf("inc%d", st[0]*7+r.Intn(1000))}
+		// (st[0] grows with every block and include of the program: no two includes share a file name)
+		n := &c13node{kind: "include", file: fmt.Sprintf("inc%d-%d", st[0], r.Intn(1000))}
 		st[0]++
 		ni := true
 		for k := 1 + r.Intn(3); k > 0; k-- {
